@@ -1,6 +1,9 @@
 package main
 
 import (
+	"fmt"
+	"time"
+
 	"verif/harness"
 	"verif/sim"
 	"verif/unit"
@@ -176,7 +179,28 @@ func init() {
 		Judged:     []string{"C18 view change destinations judged", "adv hugeView"},
 		Extra: func(run *harness.Run) ([]harness.Finding, map[string]interface{}, []string) {
 			fs, evals, distinct, samples := unit.CheckC18Table(run)
-			return fs, map[string]interface{}{"leader_table_evaluations": evals, "leader_table_distinct_(n,view-class,position)": len(distinct), "leader_table_samples": samples}, nil
+			ev := map[string]interface{}{"leader_table_evaluations": evals, "leader_table_distinct_(n,view-class,position)": len(distinct), "leader_table_samples": samples}
+			// behaviour at far-away views: valid NEW_VIEWs / vote quorums carrying views around 2^20 .. 2^64-1
+			viol, st, trace, _ := sim.ScriptHugeViews(run.Seed*7919+18, run.Pick(64, 1200), 120*time.Second)
+			for i, v := range viol {
+				if i >= 3 {
+					break
+				}
+				path := harness.ReplayPath("C18", fmt.Sprintf("huge-view-%d", i+1))
+				harness.WriteJSON(path, map[string]interface{}{"property": "C18", "rule": v.Rule, "detail": v.Detail, "trace": trace})
+				fs = append(fs, harness.Finding{Prop: "C18", Rule: v.Rule, Detail: v.Detail, Replay: path})
+			}
+			ev["huge_view_worlds"] = st.Worlds
+			ev["huge_view_new_views_adopted_from_member_at_view_mod_n"] = st.Adopted
+			ev["huge_view_new_views_from_other_position_ignored"] = st.WrongSenderIgnored
+			ev["huge_view_elections_of_the_node_at_its_own_position"] = st.Elected
+			ev["huge_view_timeout_vote_destinations_judged"] = st.Destinations
+			ev["huge_view_samples"] = st.Samples
+			var inc []string
+			if len(viol) == 0 && (st.Adopted == 0 || st.Elected == 0 || st.WrongSenderIgnored == 0 || st.Destinations == 0) {
+				inc = append(inc, "huge-view script judged nothing in one of its classes")
+			}
+			return fs, ev, inc
 		}})
 }
 
